@@ -69,10 +69,14 @@ func (session *BaseOutSession) SetupWithConn(uri string, rtpConn, rtcpConn *naza
 	if !isAudio && !isVideo {
 		return nazaerrors.Wrap(base.ErrRtsp)
 	}
+	// 同一路流重复SETUP时，被替换下来的连接由这里释放（dispose只释放最后一次SETUP的连接）
+	var prevRtpConn, prevRtcpConn *nazanet.UdpConnection
 	if !session.tp.update(func(t *transport) {
 		if isAudio {
+			prevRtpConn, prevRtcpConn = t.audioRtpConn, t.audioRtcpConn
 			t.audioRtpConn, t.audioRtcpConn = rtpConn, rtcpConn
 		} else {
+			prevRtpConn, prevRtcpConn = t.videoRtpConn, t.videoRtcpConn
 			t.videoRtpConn, t.videoRtcpConn = rtpConn, rtcpConn
 		}
 	}) {
@@ -80,6 +84,12 @@ func (session *BaseOutSession) SetupWithConn(uri string, rtpConn, rtcpConn *naza
 		_ = rtpConn.Dispose()
 		_ = rtcpConn.Dispose()
 		return nazaerrors.Wrap(base.ErrRtsp)
+	}
+	if prevRtpConn != nil {
+		_ = prevRtpConn.Dispose()
+	}
+	if prevRtcpConn != nil {
+		_ = prevRtcpConn.Dispose()
 	}
 
 	go rtpConn.RunLoop(session.onReadRtpPacket)
